@@ -410,6 +410,25 @@ class RebuildCheck:
                             found.append((f"C13|batch-mixed-lib|{p}",
                                           {"kind": "batch", "seed": seed,
                                            "perm": None}, d))
+            if kind == "list":
+                # the same with every path given relative to the working
+                # directory
+                dest3 = dest + "_rel"
+                os.mkdir(dest3)
+                old = os.getcwd()
+                os.chdir(sb)
+                try:
+                    st3, _ = run_rebuild(
+                        [os.path.relpath(m, sb) for m in marg],
+                        [os.path.relpath(search, sb)],
+                        os.path.relpath(dest3, sb), route="lib")
+                finally:
+                    os.chdir(old)
+                for name, tree, meta in trees:
+                    for p, d in self.judge_c13(meta, tree, dest3, st3, 0):
+                        found.append((f"C13|batch-relative-paths|{p}",
+                                      {"kind": "batch", "seed": seed,
+                                       "perm": None}, d))
             res.transitions += 1
             res.evals += 1
             res.states += 1
